@@ -121,6 +121,17 @@ impl InnerLiterals {
             .map_err(Error::regex)?;
         Ok(Some(re))
     }
+
+    /// Verification hook: the literals `one_regex` builds its regex from, or
+    /// `None` when `one_regex` declines to build one.
+    #[cfg(feature = "verif-hooks")]
+    pub(crate) fn verif_literals(&self) -> Option<Vec<Vec<u8>>> {
+        let lits = self.seq.literals()?;
+        if lits.is_empty() {
+            return None;
+        }
+        Some(lits.iter().map(|lit| lit.as_bytes().to_vec()).collect())
+    }
 }
 
 /// An inner literal extractor.
